@@ -238,8 +238,8 @@ func c21Body(sc c21Scenario) func(s *sched.Sched) {
 func c21Scenarios(thorough bool) []c21Scenario {
 	var out []c21Scenario
 	add := func(init int, a, b string) {
-		if !thorough && len(a)+len(b) > 3 {
-			return // quick: at most three operations in total
+		if !thorough && (len(a)+len(b) > 3 || (len(a) > 0 && len(b) > 0 && len(a)+len(b) > 2)) {
+			return // quick: two operations in total across both brokers, three on a single broker
 		}
 		out = append(out, c21Scenario{Initial: init, Seqs: []string{a, b}})
 	}
